@@ -3,7 +3,7 @@ from .. import simcheck
 
 
 def main(tier, seed):
-    rep = simcheck.sim_main("C12", tier, seed, ["F5:priority,priority-pool@1"] if tier == "quick" else ["F5:priority,priority-pool"])
+    rep = simcheck.sim_main("C12", tier, seed, ["F5:priority,priority-pool@1,deep:priority"] if tier == "quick" else ["F5:priority,priority-pool,deep:priority,busy:priority"])
     return rep.finish()
 
 
